@@ -303,28 +303,23 @@ def document_histories(ctx, builds):
     """spec/Document.tla: ownership of str_ / schema_str_ / the tree across Parse, ParseSchema (valid and invalid
     input), move, swap, mutation and destruction of two documents."""
     q = ctx.quick
-    base = "CONSTANTS Docs = {1, 2} TreeSizes = {0, 2} FixSchemaLeak = %s SlotStringsOwned = TRUE\nSPECIFICATION Spec\nCONSTRAINT Bound\n%sCHECK_DEADLOCK FALSE\n"
-    r = ctx.tlc("Document", cfg=base % ("FALSE", "INVARIANT Exact\nINVARIANT NoDangling\n"), tag="MC_Document", timeout=600, workers=4)
+    base = "CONSTANTS Docs = {1, 2} TreeSizes = {0, 2} SchemaChain = %s FixSchemaLeak = %s SlotStringsOwned = %s\nSPECIFICATION Spec\nCONSTRAINT Bound\n%sCHECK_DEADLOCK FALSE\n"
+    # the code's design (since repair of the schema-buffer leak): every ParseSchema text buffer is chained and kept until the document dies
+    r = ctx.tlc("Document", cfg=base % ("TRUE", "FALSE", "TRUE", "INVARIANT Exact\nINVARIANT NoDangling\nINVARIANT NoLeak\n"), tag="MC_Document", timeout=600, workers=4)
     if "is violated" in r["out"] or r["exit"] != 0:
         ctx.add_fail(dict(property="C13", kind="model", sig="model:Document", shape=dict(kind="model"), build="tlc",
-                          detail="Document.tla: Exact / NoDangling violated: " + r["out"][-1200:], case={}, replay=dict(harness="MC_Document")))
-    r2 = ctx.tlc("Document", cfg=base % ("FALSE", "INVARIANT NoLeak\n"), tag="MC_Document_NoLeak", timeout=600, workers=4)
-    leak_in_model = "Invariant NoLeak is violated" in r2["out"]
-    r3 = ctx.tlc("Document", cfg=base % ("TRUE", "INVARIANT NoDangling\n"), tag="MC_Document_naivefix", timeout=600, workers=4)
-    ctx.log(f"MC_Document: {r['distinct']} states, Exact/NoDangling hold; NoLeak {'violated (repeated ParseSchema orphans the previous schema buffer: recorded finding)' if leak_in_model else 'holds'}; "
-            f"naive repair (free the old buffer) {'makes NoDangling fail' if 'is violated' in r3['out'] else 'is safe'}")
-    r4 = ctx.tlc("Document", cfg=(base % ("FALSE", "INVARIANT NoDangling\n")).replace("SlotStringsOwned = TRUE", "SlotStringsOwned = FALSE"),
-                 tag="MC_Document_slotconst", timeout=600, workers=4)
-    ctx.log(f"MC_Document with slot strings stored as borrowed views of schema_str_ (not the code's design): NoDangling "
-            f"{'violated, as it must be (a deep copy shares the bytes and loses them with the source)' if 'is violated' in r4['out'] else 'NOT violated - the model does not see the hazard'}")
-    ctx.extra["document_model_slotconst_dangles"] = "is violated" in r4["out"]
-    ctx.extra["document_model_noleak_violated"] = leak_in_model
-    if leak_in_model:
-        ctx.add_fail(dict(property="C13", kind="leak-schema-buffer", sig="leak-schema-buffer", shape=dict(kind="leak-schema-buffer"), build="tlc",
-                          detail="Document.tla: NoLeak is violated by ParseSchema; ParseSchema (two applications on one document)", case=dict(trace=["parseschema", "parseschema"]),
-                          replay=dict(harness="MC_Document_NoLeak")))
+                          detail="Document.tla: Exact / NoDangling / NoLeak violated: " + r["out"][-1200:], case={}, replay=dict(harness="MC_Document")))
+    # the three designs that were considered and rejected, kept as parameters of the model
+    r2 = ctx.tlc("Document", cfg=base % ("FALSE", "FALSE", "TRUE", "INVARIANT NoLeak\n"), tag="MC_Document_overwrite", timeout=600, workers=4)
+    r3 = ctx.tlc("Document", cfg=base % ("FALSE", "TRUE", "TRUE", "INVARIANT NoDangling\n"), tag="MC_Document_freeold", timeout=600, workers=4)
+    r4 = ctx.tlc("Document", cfg=base % ("TRUE", "FALSE", "FALSE", "INVARIANT NoDangling\n"), tag="MC_Document_slotconst", timeout=600, workers=4)
+    v2, v3, v4 = ["is violated" in x["out"] for x in (r2, r3, r4)]
+    ctx.log(f"MC_Document: {r['distinct']} states, Exact / NoDangling / NoLeak hold for the code's design (schema text buffers chained until the document dies); "
+            f"rejected designs: overwrite the pointer (the code before its repair) -> NoLeak {'violated' if v2 else 'holds?'}; free the old buffer -> NoDangling {'violated' if v3 else 'holds?'}; "
+            f"slot strings as borrowed views -> NoDangling {'violated' if v4 else 'holds?'}")
+    ctx.extra["document_model_rejected_designs_violate"] = dict(overwrite_leaks=v2, free_old_dangles=v3, slot_views_dangle=v4)
     depth = 12 if q else 25
-    cfg = f"CONSTANTS Docs = {{1, 2}} TreeSizes = {{0, 2}} FixSchemaLeak = FALSE SlotStringsOwned = TRUE Depth = {depth}\nINIT GInit\nNEXT GNext\nINVARIANT EmitBeh\nCHECK_DEADLOCK FALSE\n"
+    cfg = f"CONSTANTS Docs = {{1, 2}} TreeSizes = {{0, 2}} SchemaChain = TRUE FixSchemaLeak = FALSE SlotStringsOwned = TRUE Depth = {depth}\nINIT GInit\nNEXT GNext\nINVARIANT EmitBeh\nCHECK_DEADLOCK FALSE\n"
     recs = ctx.tlc_emit("Gen_Document", cfg=cfg, simulate=40 if q else 800, depth=depth + 1, workers=8, timeout=1200, xmx="6g")
     rows = []
     for bid, r_ in enumerate(recs):
